@@ -40,6 +40,7 @@ type CheckCfg struct {
 	Parallel      int               `json:"parallel,omitempty"` // max shard processes at once (default 16)
 	SyncRewrite   []string          `json:"sync_rewrite,omitempty"`
 	ImportRewrite []string          `json:"import_rewrite,omitempty"`     // "pkg dir|import path|shim package"
+	GlobalReset   []string          `json:"global_reset,omitempty"`       // packages that get a generated VerifResetGlobals()
 	ExtraPkgs     []string          `json:"extra_harness_pkgs,omitempty"` // other packages whose harness files (common + this id) are overlaid
 	RacePass      bool              `json:"race_pass,omitempty"`
 	Env           map[string]string `json:"env,omitempty"`
